@@ -142,6 +142,7 @@ func (fe *FitnessEnv) FitnessFunction(simDelays *simbox.SimDelays) float64 {
 	totalError = simbox.DistributionDistance(latencyDistribution, *fe.LatencyDistribution)
 
 	// Lower error means better fitness; we can invert it
+	verifFitnessDone()
 	return 1.0 / (1.0 + totalError)
 }
 
